@@ -104,14 +104,23 @@ func (h volumesResourceHandler) BuildDataset(query common.RepositoryHandlerBuild
 		}
 
 		if query.UseFilter("metadata") {
-			subQuery := h.store.newScopedSelect().
-				DistinctOn("accounts_address").
-				ModelTableExpr(h.store.GetPrefixedRelationName("accounts_metadata")).
-				ColumnExpr("first_value(metadata) over (partition by accounts_address order by revision desc) as metadata").
-				Where("accounts_metadata.accounts_address = moves.accounts_address")
+			var subQuery *bun.SelectQuery
+			if h.store.ledger.HasFeature(features.FeatureAccountMetadataHistory, "SYNC") {
+				subQuery = h.store.newScopedSelect().
+					DistinctOn("accounts_address").
+					ModelTableExpr(h.store.GetPrefixedRelationName("accounts_metadata")).
+					ColumnExpr("first_value(metadata) over (partition by accounts_address order by revision desc) as metadata").
+					Where("accounts_metadata.accounts_address = moves.accounts_address")
 
-			if query.UsePIT() {
-				subQuery = subQuery.Where("date <= ?", query.PIT)
+				if query.UsePIT() {
+					subQuery = subQuery.Where("date <= ?", query.PIT)
+				}
+			} else {
+				// no metadata history is kept: filter on the current metadata, as aggregated balances do
+				subQuery = h.store.newScopedSelect().
+					TableExpr(h.store.GetPrefixedRelationName("accounts")).
+					ColumnExpr("metadata").
+					Where("accounts.address = moves.accounts_address")
 			}
 
 			// Stands in an empty object where the join found none, for the reason
